@@ -9,7 +9,7 @@ from . import core
 class Job:
     def __init__(self, pid, mc, tag, drive, trace, invariants, consts_quick, consts_thorough, properties=(),
                  extra=None, trace_consts=None, describe='', assumptions=(), tag_props=None, mc_workers=8, shards=8,
-                 group_key=None, spec_kind='Spec', extra_mc=(), level='model_checking'):
+                 group_key=None, spec_kind='Spec', extra_mc=(), level='model_checking', design_mc=()):
         self.__dict__.update(locals())
 
 
@@ -76,6 +76,20 @@ def run_job(job, pid, tier, seed, replay=None):
         raise core.ToolError('%s: %s violated on the specification itself (spec defect):\n%s' % (job.mc, v, out[-3000:]))
     stats['generated'] += gen
     stats['distinct'] += dist
+    # further design-level models of the same property (refinements checked on the specification only; their link to the code is
+    # the trace validation below): (module, {tier: [constants, ...]}, invariants)
+    for dm_module, dm_consts, dm_invs in job.design_mc:
+        for k, c in enumerate(dm_consts[tier]):
+            dcfg = os.path.join(wd, '%s_%d.cfg' % (dm_module, k))
+            core.write_cfg(dcfg, spec='Spec', constants=c, invariants=dm_invs)
+            o2, g2, d2 = core.run_tlc(dm_module, dcfg, wd, workers=job.mc_workers, timeout=3000)
+            v2 = core.tlc_violation(o2)
+            if v2:
+                raise core.ToolError('%s: %s violated on the specification itself (spec defect):\n%s' % (dm_module, v2, o2[-3000:]))
+            stats['generated'] += g2
+            stats['distinct'] += d2
+            notes.setdefault('design_models', []).append({'module': dm_module, 'constants': {a: str(b) for a, b in c.items()},
+                                                          'states_generated': g2, 'distinct_states': d2, 'checked': list(dm_invs)})
     inputs = core.extract_lines(out, job.tag)
     for i, x in enumerate(inputs):
         x['id'] = 'm%d' % i
